@@ -425,6 +425,32 @@ func reentrant(n int) {
 	hook.Ev("reentrant", n, a1, b1, a2, b2, a3, b3, r4x1(n, 1, 2, 3), a4, b4, a5, b5, s5, r4x0acc, av, bv)
 }
 
+// return statements of functions with named results evaluate every operand before any
+// result is set.
+func swapNamed(a, b int) (x, y int) {
+	x, y = a, b
+	if a%2 == 0 {
+		return y, x
+	}
+	return x + y, x
+}
+
+func rotNamed(a int) (x int, s string, f float64) {
+	defer func() {
+		x += 100
+		s += "!"
+	}()
+	x, s, f = a, "s", 1.5
+	return x + 1, s + string(rune('a'+x%26)), f * float64(x+1)
+}
+
+func namedResults(n int) {
+	x, y := swapNamed(n, n+7)
+	p, q := swapNamed(n+1, n+9)
+	a, b, c := rotNamed(n)
+	hook.Ev("named", n, x, y, p, q, a, b, c)
+}
+
 func Main() {
 	gfuncs, gsetters, gptrs, gsptrs = nil, nil, nil, nil
 	gfptrs, gbptrs = nil, nil
@@ -436,7 +462,9 @@ func Main() {
 	}
 	steps := 6 + hook.Choose(14)
 	for s := 0; s < steps; s++ {
-		switch hook.Choose(24) {
+		switch hook.Choose(25) {
+		case 24:
+			namedResults(hook.Choose(9))
 		case 23:
 			reentrant(hook.Choose(7))
 		case 22:
